@@ -80,7 +80,9 @@ def gen_import(rng):
         return "from %s import (%s)" % (m, ",\n    ".join(items) + rng.choice(["", ","]))
     if r < 0.95:
         return "from %s import \\\n    %s" % (m, ", ".join(items))
-    return "from %s import *" % m
+    # star imports also from modules that cannot be inspected through a source file: built into the interpreter
+    # (no __file__), extension modules, missing modules
+    return "from %s import *" % rng.choice([m, m, "time", "itertools", "sys", "math", "_thread", "nosuchmod9", "zlib"])
 
 
 def gen_simple(rng, allow_import=True):
